@@ -46,9 +46,15 @@ when `fallback` runs. -/
 /-- The cluster with another set of nodes lacking a usable connection (everything else unchanged). -/
 def withDown (cl : Cluster) (down₂ : List Nat) : Cluster := { cl with down := down₂ }
 
-/-- `Plan` iterated to exhaustion when the liveness is `cl.down` at `pick()` and `down₂` at `fallback()`. -/
+/-- `Plan` iterated to exhaustion when the liveness is `cl.down` during the first `next()` and `down₂` afterwards.  If
+`pick()` answers a target, `fallback()` is only called at the second `next()` (second snapshot); if it answers nothing,
+`fallback()` is called right away, inside the first `next()` (`plan.rs:121-135`) - first snapshot.  (The `FallbackPlan` is a
+LAZY iterator: liveness changes while it is being consumed are seen element by element; `plan2` models exactly one
+change, between the first and the second `next()`, and the `xplan` cases make exactly that one change.) -/
 def plan2 (cl : Cluster) (down₂ : List Nat) (cfg : Config) (rq : Request) (ρp : RhoPick) (ρf : RhoFb) : List Target :=
-  planOf (pick cl cfg rq ρp) (fallback (withDown cl down₂) cfg rq ρf)
+  match pick cl cfg rq ρp with
+  | some t => planOf (some t) (fallback (withDown cl down₂) cfg rq ρf)
+  | none => planOf none (fallback cl cfg rq ρf)
 
 /-! ### latency awareness (off by default): the wrapper and the pick predicate, the penalised set being an input
 
